@@ -102,6 +102,7 @@ impl Run {
         }
     }
     pub fn op(&mut self, op: String, out: String) {
+        PROGRESS.fetch_add(1, std::sync::atomic::Ordering::Relaxed);
         use std::hash::{Hash, Hasher};
         let mut h = std::collections::hash_map::DefaultHasher::new();
         op.hash(&mut h);
@@ -146,4 +147,44 @@ impl Run {
         }
         Ok(())
     }
+}
+
+
+// ---------------------------------------------------------------- watchdog
+
+/// bumped by every completed operation (`Run::op`) and by `inflight`
+pub static PROGRESS: std::sync::atomic::AtomicU64 = std::sync::atomic::AtomicU64::new(0);
+static INFLIGHT: std::sync::Mutex<String> = std::sync::Mutex::new(String::new());
+
+/// the operation about to be executed on the real code (reported if it never returns)
+pub fn inflight(desc: &str) {
+    if let Ok(mut g) = INFLIGHT.lock() {
+        g.clear();
+        g.push_str(desc);
+    }
+    PROGRESS.fetch_add(1, std::sync::atomic::Ordering::Relaxed);
+}
+
+/// A real-time watchdog (the sleeping is relative, so the interposed virtual clock does not affect it): when
+/// no operation completes for `limit_s` seconds the implementation is stuck inside the operation last announced
+/// with `inflight` — the harness writes `<dir>/<name>.hang` with that operation and exits with status 3.
+pub fn start_watchdog(dir: &str, name: &str, limit_s: u64) {
+    let (dir, name) = (dir.to_string(), name.to_string());
+    std::thread::spawn(move || {
+        let mut last = PROGRESS.load(std::sync::atomic::Ordering::Relaxed);
+        let mut idle = 0u64;
+        loop {
+            std::thread::sleep(std::time::Duration::from_secs(1));
+            let now = PROGRESS.load(std::sync::atomic::Ordering::Relaxed);
+            if now != last { last = now; idle = 0; continue; }
+            idle += 1;
+            if idle >= limit_s {
+                let what = INFLIGHT.lock().map(|g| g.clone()).unwrap_or_default();
+                let _ = std::fs::create_dir_all(&dir);
+                let _ = std::fs::write(format!("{dir}/{name}.hang"), format!("{what}\n"));
+                eprintln!("watchdog: no operation completed for {limit_s} s; in flight: {what}");
+                std::process::exit(3);
+            }
+        }
+    });
 }
